@@ -343,13 +343,18 @@ def _predictor_walker(ctx):
     cfg = CFG(fn)
     defs = df.all_defs(fn)
     loops = [n for n in walk_local(fn) if isinstance(n, ast.While)]
+    # a `for _ in range(N)` walker is bounded by construction (the membership test is then an `if ... break` in its body)
+    bounded = [n for n in walk_local(fn) if isinstance(n, ast.For) and isinstance(n.iter, ast.Call) and call_name(n.iter) == "range" and not any(isinstance(x, ast.Name) and isinstance(n.target, ast.Name) and x.id == n.target.id and isinstance(x.ctx, ast.Store) for b in n.body for x in ast.walk(b))]
     table = None
-    for w in loops:
-        ins = [c for c in ast.walk(w.test) if isinstance(c, ast.Compare) and len(c.ops) == 1 and isinstance(c.ops[0], ast.In) and isinstance(c.comparators[0], ast.Attribute) and unparse(c.comparators[0].value) == "self"]
+    for w in loops + bounded:
+        scope = [w.test] if isinstance(w, ast.While) else w.body
+        ins = [c for s_ in scope for c in ast.walk(s_) if isinstance(c, ast.Compare) and len(c.ops) == 1 and isinstance(c.ops[0], (ast.In, ast.NotIn)) and isinstance(c.comparators[0], ast.Attribute) and unparse(c.comparators[0].value) == "self"]
         if ins:
             table = unparse(ins[0].comparators[0])
-    if not loops or table is None:
-        raise AnchorMissing(f"{st}: the loop that follows the alias chain (`while name in self.<table>`)")
+    if not (loops or bounded) or table is None:
+        raise AnchorMissing(f"{st}: the loop that follows the alias chain (`while name in self.<table>` / `for _ in range(N)` with the test inside)")
+    for w in bounded:
+        ctx.ob("R6", st, f"`for {short(w.target)} in {short(w.iter, 40)}` is bounded by its range (the loop variable is not rebound)", True, key="predictor-walker|loop-without-variant", where=loc(w))
     for w in loops:
         # variant A: a counter initialised to a positive constant, decremented in the body, with an exit when it is used up
         budget = None
